@@ -27,6 +27,15 @@ impl std::fmt::Write for Reentrant {
         use std::fmt::Write;
         let d = sqldatetime::Date::try_from_ymd(2021, 3, 11).expect("date");
         let mut tmp = String::new();
+        // (a blank run whose length depends on the piece: sometimes longer than anything this thread rendered before)
+        let n = 2 + (s.len() * 7 + self.out.len()) % 61;
+        if let Ok(f) = Formatter::try_new(&format!("DD{}Mon", " ".repeat(n))) {
+            let mut t2 = String::new();
+            let _ = f.format(d, &mut t2);
+            if t2 != format!("11{}Mar", " ".repeat(n)) {
+                return Err(std::fmt::Error);
+            }
+        }
         if let Ok(f) = Formatter::try_new("YYYY-MM-DD") {
             let _ = f.format(d, &mut tmp);
         }
@@ -525,6 +534,54 @@ pub fn run(ctx: &Ctx, st: &mut Stats) {
                 }
             }
         }
+    }
+    // (h) runs of punctuation of every length up to the element limit (each character is one element), pure and mixed
+    st.stratum("(h) punctuation runs of 1..=34 characters between two fields", true);
+    for n in 1..=34usize {
+        for (k, filler) in ["-", ":", "/", ".", ",", ";", "\\", "-:/.,;\\"].iter().enumerate() {
+            let run: String = filler.chars().cycle().take(n).collect();
+            if let Some(p) = pic(st, &format!("YYYY{}DD", run), Some("C04/documented-token-picture-rejected")) {
+                st.eval(&F { v: V::Date(2021, 3, 11), pic: &p.text, toks: &p.toks, f: &p.f, via_display: (n + k) % 2 == 0, fail_cap: -1 }, check);
+                st.eval(&F { v: V::Ts(1969, 12, 31, 23, 59, 59, 999_999), pic: &p.text, toks: &p.toks, f: &p.f, via_display: (n + k) % 2 == 1, fail_cap: -1 }, check);
+            }
+        }
+    }
+    // first renderings of fresh threads: a leading blank run into a re-entrant sink, long runs, dense pictures
+    {
+        let cold_pics = ["    YYYY/MM", "YYYY            MM", "DD-MON-YYYY", "MONTH Day month DAY MONTH Day month DAY", "FF9FF9FF9FF9FF9FF9FF9FF9", "YYYY-MM-DD HH24:MI:SS.FF6"];
+        let mut compiled = vec![];
+        for p in cold_pics {
+            if let Some(x) = pic(st, p, Some("C04/documented-token-picture-rejected")) {
+                compiled.push(std::sync::Arc::new(x));
+            }
+        }
+        struct Owned {
+            p: std::sync::Arc<Pic>,
+            v: V,
+            via_display: bool,
+            fail_cap: i32,
+        }
+        impl Clone for Owned {
+            fn clone(&self) -> Self {
+                Owned { p: self.p.clone(), v: self.v, via_display: self.via_display, fail_cap: self.fail_cap }
+            }
+        }
+        impl Case for Owned {
+            fn to_json(&self) -> Value {
+                F { v: self.v, pic: &self.p.text, toks: &self.p.toks, f: &self.p.f, via_display: self.via_display, fail_cap: self.fail_cap }.to_json()
+            }
+        }
+        let mut list = vec![];
+        for p in &compiled {
+            for fail_cap in [-2, -1, 3, -3] {
+                for via_display in [false, true] {
+                    list.push(Owned { p: p.clone(), v: V::Ts(2021, 9, 15, 17, 6, 8, 912_345), via_display, fail_cap });
+                }
+            }
+        }
+        cold_threads(st, "history: first rendering of a fresh thread (re-entrant / failing / panicking sinks, long runs, dense pictures)", list, |st, o: &Owned| {
+            check(st, &F { v: o.v, pic: &o.p.text, toks: &o.p.toks, f: &o.p.f, via_display: o.via_display, fail_cap: o.fail_cap })
+        });
     }
     // (e) random composite pictures x random values of all types
     let n = ctx.tier.pick(400, 600_000, ctx.big(12_000_000, 80_000_000));
